@@ -4,7 +4,7 @@ import json, glob, os, re
 D = "/verif/DESIGN.md"
 rows = []
 try:
-    res = json.load(open("/verif/work/mutants_all.json"))
+    res = json.load(open("/verif/tools/mutants_results.json"))
 except Exception:
     res = []
 import importlib.util
